@@ -240,6 +240,78 @@ Lemma dec_add_clamped_refuted_scale18 : forall m,
   /\ spec_addsub P0 D64 false (ODec 18 18 500000000000000000) (ODec 18 18 500000000000000000) = Err.
 Proof. intros m. destruct m; vm_compute; auto. Qed.
 
+(* ------------------------------------------------------------ what holds for EVERY precision, clamped or not *)
+Lemma cast_dec_ok_inv : forall P m k p s v p' s' x, d2d_validates P = true -> 0 <= p' -> Z.abs v < 10 ^ p ->
+  cast_operand P m k p' s' (ODec p s v) = Ok x -> x = v * 10 ^ (s' - s) /\ Z.abs x < 10 ^ p'.
+Proof.
+  intros P m k p s v p' s' x Hd Hp' Hv H. cbn [cast_operand] in H.
+  destruct ((p =? p') && (s =? s')) eqn:He.
+  - injection H as <-. apply andb_true_iff in He. destruct He as [E1 E2]. apply Z.eqb_eq in E1, E2. subst p' s'.
+    rewrite Z.sub_diag. split; [cbn [Z.pow]; lia|exact Hv].
+  - rewrite Hd in H. unfold checked at 1 in H.
+    destruct (in_range Signed (prim_bits k) (10 ^ (s' - s))); cbn [bind_out] in H; [|discriminate].
+    unfold checked in H. destruct (in_range Signed (prim_bits k) (v * 10 ^ (s' - s))) eqn:Hr; cbn [bind_out] in H; [|discriminate].
+    destruct (validate_precision P k (v * 10 ^ (s' - s)) p') eqn:Hval; [|discriminate]. injection H as <-.
+    split; [reflexivity|]. exact (validate_sound P k _ p' Hp' Hr Hval).
+Qed.
+
+Lemma add_sub_type_range : forall P k p1 s1 p2 s2 p' s' e, 0 <= max_prec P k -> 0 <= s1 <= p1 -> 0 <= s2 <= p2 ->
+  add_sub_type P k p1 s1 p2 s2 = (p', s', e) -> 0 <= p' <= max_prec P k /\ s' = Z.max s1 s2.
+Proof.
+  intros P k p1 s1 p2 s2 p' s' e Hm H1 H2 Ht. unfold add_sub_type in Ht.
+  destruct (max_prec P k <? Z.max (p1 - s1) (p2 - s2) + Z.max s1 s2 + 1) eqn:Hc; injection Ht as <- <- _; lia.
+Qed.
+
+Definition params_ok2 (P : dparams) : Prop := params_ok P /\ 2 * 10 ^ max64 P < 2 ^ 63.
+
+(* decimal (+|-) decimal with the casts validating (current source), whatever the precisions:
+   an error; or the EXACT value, with fewer than 2*10^p' in magnitude (at most one digit too many: the
+   add itself is neither checked nor validated); or -- Decimal128 only, native operator only -- the
+   exact value does not fit i128 (panic with overflow checks, a wrapped value without).
+   In particular: no over-precision operand is ever used, and Decimal64 never panics or wraps. *)
+Lemma dec_addsub_exact_or_error_any_precision : forall P st m k sub p1 s1 a p2 s2 b ty r,
+  params_ok2 P -> d2d_validates P = true -> 0 <= s1 <= p1 -> 0 <= s2 <= p2 ->
+  Z.abs a < 10 ^ p1 -> Z.abs b < 10 ^ p2 ->
+  dec_addsub P st m k sub (ODec p1 s1 a) (ODec p2 s2 b) = (ty, r) ->
+  let p' := fst (fst ty) in let s' := snd (fst ty) in
+  let v := exact_addsub s' sub (ODec p1 s1 a) (ODec p2 s2 b) in
+  r = Err \/ (r = Ok v /\ Z.abs v < 2 * 10 ^ p') \/
+  (k = D128 /\ st = Native /\ in_range Signed 128 v = false).
+Proof.
+  intros P st m k sub p1 s1 a p2 s2 b ty r [HP H2x] Hd H1 H2 Ha Hb H.
+  unfold dec_addsub in H. cbn [op_meta] in H.
+  destruct (add_sub_type P k p1 s1 p2 s2) as [[p' s'] e] eqn:Ht.
+  assert (Hmax0 : 0 <= max_prec P k) by (destruct HP as (? & ? & _); destruct k; cbn [max_prec]; lia).
+  destruct (add_sub_type_range P k p1 s1 p2 s2 p' s' e Hmax0 H1 H2 Ht) as [Hp' Hs'].
+  apply pair_equal_spec in H. destruct H as [<- <-]. cbn [fst snd].
+  destruct (cast_operand P m k p' s' (ODec p1 s1 a)) as [a'| |] eqn:Ca; cbn [bind_out]; [|left; reflexivity|].
+  2:{ exfalso. cbn [cast_operand] in Ca. destruct ((p1 =? p') && (s1 =? s')); [discriminate|]. rewrite Hd in Ca.
+      unfold checked in Ca. destruct (in_range Signed (prim_bits k) (10 ^ (s' - s1))); cbn [bind_out] in Ca; [|discriminate].
+      destruct (in_range Signed (prim_bits k) (a * 10 ^ (s' - s1))); cbn [bind_out] in Ca; [|discriminate].
+      destruct (validate_precision P k (a * 10 ^ (s' - s1)) p'); discriminate. }
+  destruct (cast_operand P m k p' s' (ODec p2 s2 b)) as [b'| |] eqn:Cb; cbn [bind_out]; [|left; reflexivity|].
+  2:{ exfalso. cbn [cast_operand] in Cb. destruct ((p2 =? p') && (s2 =? s')); [discriminate|]. rewrite Hd in Cb.
+      unfold checked in Cb. destruct (in_range Signed (prim_bits k) (10 ^ (s' - s2))); cbn [bind_out] in Cb; [|discriminate].
+      destruct (in_range Signed (prim_bits k) (b * 10 ^ (s' - s2))); cbn [bind_out] in Cb; [|discriminate].
+      destruct (validate_precision P k (b * 10 ^ (s' - s2)) p'); discriminate. }
+  destruct (cast_dec_ok_inv P m k p1 s1 a p' s' a' Hd ltac:(lia) Ha Ca) as [Ea Ba].
+  destruct (cast_dec_ok_inv P m k p2 s2 b p' s' b' Hd ltac:(lia) Hb Cb) as [Eb Bb].
+  unfold exact_addsub. cbn [op_unscaled op_meta snd]. rewrite <- Ea, <- Eb.
+  set (x := if sub then a' - b' else a' + b').
+  assert (Hx : Z.abs x < 2 * 10 ^ p') by (subst x; destruct sub; lia).
+  destruct (in_range Signed (prim_bits k) x) eqn:Hr.
+  - right. left. split; [|exact Hx]. apply arith_result_exact; [destruct k; reflexivity|exact Hr].
+  - destruct k.
+    + exfalso. apply in_range_false_iff in Hr. apply Hr. cbn [prim_bits lo hi max_prec] in *. change (64 - 1) with 63.
+      assert (10 ^ p' <= 10 ^ max64 P) by (apply Z.pow_le_mono_r; lia). lia.
+    + destruct st.
+      * right. right. repeat split; try reflexivity. exact Hr.
+      * left. unfold arith_result. rewrite Hr. reflexivity.
+Qed.
+
+Example dec_addsub_any_precision_sat : params_ok2 P0 /\ d2d_validates P0 = true.
+Proof. unfold params_ok2, params_ok, P0. cbn [max64 max128 d2d_validates]. repeat split; try lia; reflexivity. Qed.
+
 (* integer operand of a decimal + / -: the scale factor 10^s' is exact now (it used to be computed in i32:
    panic / wrong value for s' >= 10) *)
 Lemma int_to_decimal_scale_exact_now : forall m,
@@ -370,6 +442,24 @@ Proof.
   destruct src_params_ok as (k64 & k128 & H64 & H128 & HP).
   exists k64, k128. split; [exact H64|]. split; [exact H128|].
   intros pw dv st m k p1 s1 a p2 s2 b p' s' P. apply dec_mul_exact_when_not_clamped. exact (HP pw dv).
+Qed.
+
+Lemma src_dec_addsub_exact_or_error_any_precision : exists k64 k128,
+  d64_max_precision = Some k64 /\ d128_max_precision = Some k128 /\ decimal_to_decimal_validates = Some 1 /\
+  forall pw st m k sub p1 s1 a p2 s2 b ty r,
+  let P := {| max64 := k64; max128 := k128; pow_i32 := pw; d2d_validates := true |} in
+  0 <= s1 <= p1 -> 0 <= s2 <= p2 -> Z.abs a < 10 ^ p1 -> Z.abs b < 10 ^ p2 ->
+  dec_addsub P st m k sub (ODec p1 s1 a) (ODec p2 s2 b) = (ty, r) ->
+  let p' := fst (fst ty) in let s' := snd (fst ty) in
+  let v := exact_addsub s' sub (ODec p1 s1 a) (ODec p2 s2 b) in
+  r = Err \/ (r = Ok v /\ Z.abs v < 2 * 10 ^ p') \/
+  (k = D128 /\ st = Native /\ in_range Signed 128 v = false).
+Proof.
+  destruct src_params_ok as (k64 & k128 & H64 & H128 & HP).
+  exists k64, k128. split; [exact H64|]. split; [exact H128|]. split; [reflexivity|].
+  intros pw st m k sub p1 s1 a p2 s2 b ty r P. apply dec_addsub_exact_or_error_any_precision; [|reflexivity].
+  split; [exact (HP pw true)|]. subst P. cbn [max64].
+  unfold d64_max_precision in H64. injection H64 as <-. reflexivity.
 Qed.
 
 (* P0, the parameters of the witness lemmas, is the variant the current source has *)
